@@ -201,7 +201,7 @@ func runC01(c *Ctx) {
 	}
 
 	// ---- R4: IsAllowedRequest -----------------------------------------------------------------------
-	runC01R4(c, isAllowed, gas)
+	runC01R4(c, "R4-bypass-entry", isAllowed, gas)
 
 	// ---- R5/R6: writers of RequestScope.Session and their getters ------------------------------
 	runC01R5R6(c, scopeSessF)
@@ -280,8 +280,7 @@ func checkAuthenticatedReturn(c *Ctx, rule string, p *walk.Path, isAllowed *ssa.
 	c.bad(rule, key, ret, sprintf("nil-error return without bypass and without the full authorisation conjunction (session!=nil:%v email-ok:%v authorize:%v)", nonNil, emailOK, authOK), p, at)
 }
 
-func runC01R4(c *Ctx, isAllowed, gas *ssa.Function) {
-	rule := "R4-bypass-entry"
+func runC01R4(c *Ctx, rule string, isAllowed, gas *ssa.Function) {
 	if isAllowed == nil {
 		return
 	}
